@@ -1,3 +1,4 @@
+import BalmProofs.SymHyp
 import BalmProofs.JudgeSpec
 import Balm
 import BalmProofs.AttrTest
